@@ -51,8 +51,8 @@ def compose_models(models_map: Dict[str, ModelMeta]) -> ModelsStructureType:
                 parent["nested"].insert(0, struct)
                 path_injections[struct["model"]] = parent["model"]
             else:
-                # Model is using by only one model
-                parent = structure_hash_table[next(iter(parents))]
+                # Model is using by only one model (or by several models none of which hangs off a root model: take the first one)
+                parent = structure_hash_table[min(parents)]
                 struct = structure_hash_table[key]
                 parent["nested"].append(struct)
 
@@ -91,8 +91,8 @@ def compose_models_flat(models_map: Dict[Index, ModelMeta]) -> ModelsStructureTy
             parents = {ptr.parent.index for ptr in pointers}
             struct = structure_hash_table[key]
             # Model is using by other models
-            if has_root_pointers or len(parents) > 1 and len(struct["roots"]) >= 1:
-                # Model is using by different root models
+            if has_root_pointers or len(parents) > 1:
+                # Model is using by different models
                 if parents & top_level_models:
                     parents.add("root")
                 parents_positions = {positions[parent_key] for parent_key in parents
